@@ -153,8 +153,11 @@ func tapBubble(c *harness.Ctx) {
 		}
 		z.Set(p, a.payload())
 	}
+	var desc []string
 	for i := 0; i < c.Choose(3, "npre"); i++ {
-		apply(genAnnounce(c))
+		a := genAnnounce(c)
+		desc = append(desc, fmt.Sprintf("pre-announce %s kind=%d", a.node, a.kind))
+		apply(a)
 	}
 	conn, _, err := zk.Connect([]string{"127.0.0.1:2181"}, 10*time.Second, zk.WithDialer(z.Dial), zk.WithLogger(nolog{}))
 	if err != nil {
@@ -200,7 +203,6 @@ func tapBubble(c *harness.Ctx) {
 		render string
 	}
 	var snaps []seen
-	var desc []string
 	check := func(when string) bool {
 		_, id, live := cl.VerifCurrent(svc, cluster)
 		r := renderLive(live)
@@ -309,10 +311,28 @@ func tapBubble(c *harness.Ctx) {
 		now = append(now, tapEvent{path: zkPath + "/" + n, data: data})
 	}
 	sort.Slice(now, func(i, j int) bool { return now[i].path < now[j].path })
-	if foldEvents(now, zkPath) == snaps[len(snaps)-1].render {
+	faultFree := true
+	for _, d := range desc {
+		if strings.HasPrefix(d, "drop") || strings.HasPrefix(d, "expire") || strings.HasPrefix(d, "fail") {
+			faultFree = false
+		}
+		// watches are one-shot: a client may legitimately never see a value that was overwritten before
+		// it looked. With only valid announcements and deletions the fold of the history is the current
+		// tree however notifications coalesce; an ignored (malformed / weight-less) update breaks that
+		// equivalence, so such histories are not asserted on
+		if strings.Contains(d, "kind=2") || strings.Contains(d, "kind=3") || strings.Contains(d, "/2") || strings.Contains(d, "/3") {
+			faultFree = false
+		}
+	}
+	if view := snaps[len(snaps)-1].render; foldEvents(now, zkPath) == view {
 		c.Probe("view-converged-to-zookeeper")
+	} else if faultFree {
+		// no connection fault, every notification delivered, 45 virtual seconds of quiet: the history
+		// of tree changes has been observed completely, so its fold is the tree as it stands
+		c.Fail("C19", "fold-zookeeper", "fold-zookeeper", "fault-free run, all notifications delivered: the tracked announcements are %q but the fold of ZooKeeper's change history (= its current tree) is %q; TreeCache emitted %d events; stimuli=%v", view, foldEvents(now, zkPath), len(history), desc)
+		return
 	} else {
-		c.Probe("view-not-converged")
+		c.Probe("view-not-converged-after-faults")
 	}
 	h := fnv.New64a()
 	for _, l := range z.Trace() {
